@@ -14,3 +14,28 @@ Proof. reflexivity. Qed.
 Theorem tables_reply_protocol_is_key :
   forallb (fun p => fst p =? snd (snd p)) gen_reply_registry = true.
 Proof. reflexivity. Qed.
+
+(* which ReplyBody method every registered type ends up with (translator: simRegistry,
+   gen_reply_body_decl = Protocol() of the declaring type, 0 for BaseHandle): the [rkind] column of the
+   model's handler table *)
+Definition reply_kind_code_ok (k : rkind) (code : N) : bool :=
+  match k with
+  | RGeneral => code =? 0
+  | RRegister => code =? 0x0100
+  | RAuth => code =? 0x0102
+  | RMedia => code =? 0x0801
+  | RFile => code =? 0x1212
+  | REmpty => code =? 0x1003
+  end.
+
+Theorem tables_reply_body_kind :
+  map fst gen_reply_body_decl = map fst default_handles /\
+  forallb (fun pq => reply_kind_code_ok (hi_kind (snd (snd pq))) (snd (fst pq)))
+          (combine gen_reply_body_decl default_handles) = true.
+Proof. split; reflexivity. Qed.
+
+(* the message ids the writer may hand to a waiting SendActiveMessage caller instead of answering
+   them (the switch of connection.onActiveRespondEvent) = the ids for which the model's absorb move
+   is enabled *)
+Theorem tables_active_respond_ids : gen_active_respond_ids = response_ids.
+Proof. reflexivity. Qed.
